@@ -10,6 +10,9 @@
       received when the packet was opened — is the number of packets closed before it
       (`closed_sequence_exact`), or 0 when the feature is disabled;
     * the content size saved is the write position at the closing (`close_saves_position`).
+    * closing_saves_the_end_of_the_last_record — (one buffer size) from any reachable state with an open packet, the
+      closing saves as content size exactly the end of the last record (or of the packet context), at most the packet
+      size = buffer size, and parks `at` at the end of the closed packet (position invariant, Proofs/RtPos.lean).
   `delivered_packet_wellformed_partial`: NOT proved as a statement about the delivered *bytes*
   (magic/UUID/stream id/size fields read back through the metadata at the reader's offsets): that
   needs the bit-level frame lemmas of Bits lifted through the packet-context serialisation, and the
@@ -18,6 +21,7 @@
   every delivered packet).
 -/
 import BVM.Proofs.RtCount
+import BVM.Proofs.CfgOKb
 namespace BVM
 
 /-- the list of `closed` events of a log, each with the log as it was before the event -/
@@ -54,8 +58,32 @@ theorem sequence_number_exact (cfg : Cfg) (d : DST) (ops : List Op) (bytes : Nat
       (if d.feat.seqNum.isSome then nClosed (runOps cfg d ops (rtInit bytes p)).log % 4294967296 else 0) :=
   (runOps_inv cfg d ops _ (rtInit_inv d bytes p)).seq
 
+/-- **what a closing writes into the size fields** (platforms with one buffer size; hypotheses as in
+    `no_store_outside_the_buffer`, Props/C02.lean): in any state a history can reach with a packet open, the closing
+    function saves as content size exactly the end of the packet's last record — or the end of the packet header and
+    context when the packet holds no record (`hw` of the log) — which is at most the packet size; the packet size is the
+    buffer size; and it leaves the packet closed with the position parked at the end of the packet.  (The value saved is
+    the one the write-back puts into the `content_size` field; the `packet_size` field received `8·L` at the opening.) -/
+theorem closing_saves_the_end_of_the_last_record (cfg : Cfg) (d : DST) (L A : Nat) (hcfg : CfgOK A cfg d)
+    (hsmall : 8 * L + A ≤ 2 ^ 32) (p : Plat) (hsb : ∀ x ∈ p.setBufs, x.2 = L)
+    (hhdr : ∀ args ∈ openArgsOf p.openArgs, hdrEndN cfg d args ≤ 8 * L)
+    (ops : List Op) (hops : OpsSmall d L A ops) (ts : Nat) (saved : Bool)
+    (ho : (runOps cfg d ops (rtInit L p)).c.packetIsOpen = true) :
+    (closeWrite cfg d ts saved (runOps cfg d ops (rtInit L p))).c.contentSize = hw (runOps cfg d ops (rtInit L p)).log ∧
+    hw (runOps cfg d ops (rtInit L p)).log ≤ 8 * L ∧
+    (closeWrite cfg d ts saved (runOps cfg d ops (rtInit L p))).c.packetSize = 8 * L ∧
+    (closeWrite cfg d ts saved (runOps cfg d ops (rtInit L p))).c.at_ = 8 * L ∧
+    (closeWrite cfg d ts saved (runOps cfg d ops (rtInit L p))).c.packetIsOpen = false := by
+  have hi := runOps_pinv cfg d L A p.openArgs hcfg hsmall hhdr ops hops (rtInit L p)
+    (rtInit_pinv d L A hcfg.Apos hsmall p hsb)
+  have h1 := closeWrite_content_size cfg d L A p.openArgs hcfg hsmall ts saved _ hi ho
+  have h2 := closeWrite_closed cfg d L A hcfg hsmall (fun _ => True) (runOps cfg d ops (rtInit L p)).c.isTracingEnabled
+    ts saved _ hi.nh hi.len hi.pkt hi.at_ (hi.sv ho) ho trivial rfl
+  exact ⟨h1.1, h1.2, h2.pkt, h2.at_, h2.isOpen⟩
+
 #print axioms closedOK_closings
 #print axioms closed_snapshot_exact
 #print axioms closed_sequence_exact
 #print axioms sequence_number_exact
+#print axioms closing_saves_the_end_of_the_last_record
 end BVM
